@@ -13,8 +13,17 @@ Inductive obs :=
 | OStart (g : nat) (t : retc) | OSec (g : nat) (evs : list ev) | OReq (g : nat) | ORet (g : nat) (t : retc)
 | OKill (c : nat) | OCloseBegin | OCloseSec (evs : list ev) | OCloseEnd | OQuiet (opens : list nat).
 
+(* The log as recorded: every boundary event of a locked section (configFunc / factory.New /
+   PacketConn.Close / connectedFunc) on its own, tagged with the goroutine that emitted it
+   ([close_actor] = not a calling goroutine: the caller of rc.Close()), interleaved with the other
+   observations in log order.  Cutting it into locked sections is done here ([group]), not by the
+   driver, because the cut is where the mutex discipline of reconnect.go is checked: the model runs
+   Enter (incl. the whole reconnect()) under rc.m as ONE action. *)
+Inductive robs := RO (o : obs) | RE (who : nat) (e : ev).
+
 Inductive case :=
 | CHist (l : list obs)
+| CRaw (l : list robs)
 | CClass.
 
 (* ---- decidable equalities *)
@@ -160,7 +169,10 @@ Definition apply_obs (o : obs) (a : astate) : list astate :=
   | OSec g evs =>
       keep (flat_map (fun f => flat_map (post_enter (hint hs g) g) (with_evs s (Enter g f) evs)) faults
             ++ flat_map (fun x => with_evs x (Leave g) evs) (to_done g s))
-  | OReq g => match get_pc s g with PEntered _ | PDone _ _ => [a] | _ => [] end
+  (* the server saw the request of g: logged on a goroutine of the server, so it can trail the second
+     locked section of a call whose connection was closed under it (Close racing with a request in
+     flight: the call is on its way out with ClosedError); never before the first section *)
+  | OReq g => match get_pc s g with PEntered _ | PDone _ _ | PRet TClosed => [a] | _ => [] end
   | ORet g t =>
       keep (flat_map (fun x => match step true x (Ret g) with
                                | Some (s1, [ERet h u]) => if Nat.eqb g h && retc_eqb t u then [s1] else []
@@ -196,6 +208,103 @@ Definition accepts (l : list obs) : bool :=
   | _ => false
   end.
 
+(* ---- cutting the raw log into locked sections *)
+Definition close_actor : nat := 99.
+
+(* event grammar of a section that is more than one event long: the reconnect() inside Enter,
+   cfg(ok) (newerr | new s (sockclose s | connected n)) *)
+Definition sec_continues (evs : list ev) (e : ev) : bool :=
+  match evs, e with
+  | [ECfg true], ENew _ | [ECfg true], ENewErr => true
+  | [ECfg true; ENew s], ESockClose c => Nat.eqb s c
+  | [ECfg true; ENew _], EConnected _ => true
+  | _, _ => false
+  end.
+(* ... and the prefixes of it that are not a whole section yet: the lock is still held *)
+Definition sec_unfinished (evs : list ev) : bool :=
+  match evs with
+  | [ECfg true] | [ECfg true; ENew _] => true
+  | _ => false
+  end.
+
+Definition mk_sec (w : nat) (evs : list ev) : obs :=
+  if Nat.eqb w close_actor then OCloseSec evs else OSec w evs.
+
+(* What cannot be observed while goroutine [w] is inside an unfinished locked section:
+   - a boundary event of ANOTHER locked section (another goroutine's reconnect or Leave, the locked
+     section of Close): two sections would overlap (handled in [group]: different actor);
+   - the return of rc.Close(): its locked section would lie inside this one;
+   - a quiescent point; the start / server request / return of the call of [w] itself.
+   Everything else (starts, requests and returns of other goroutines, the begin of a Close that then
+   waits for the mutex, kills) does not take rc.m and commutes with the section. *)
+Definition breaks (w : nat) (o : obs) : bool :=
+  match o with
+  | OCloseEnd | OQuiet _ | OInit _ _ _ | OSec _ _ | OCloseSec _ => true
+  | OStart g _ | OReq g | ORet g _ => Nat.eqb g w
+  | OCloseBegin | OKill _ => false
+  end.
+
+(* [open] = the unfinished section (actor, events so far), [pend] = the commuting observations seen
+   since it was opened (reversed), [out] = output so far (reversed).  A finished section is placed
+   where its first event was logged.  An unfinished section that gets broken is emitted as it is: no
+   action of the LTS emits a proper prefix of the reconnect() events, so the acceptor rejects it. *)
+Definition flush (open : option (nat * list ev)) (pend out : list obs) : list obs :=
+  match open with
+  | Some (w, evs) => pend ++ mk_sec w evs :: out
+  | None => pend ++ out
+  end.
+
+Fixpoint group_aux (l : list robs) (open : option (nat * list ev)) (pend out : list obs) : list obs :=
+  match l with
+  | [] => rev (flush open pend out)
+  | RE w e :: t =>
+      match open with
+      | Some (w0, evs) =>
+          if Nat.eqb w w0 && sec_continues evs e then
+            let evs1 := evs ++ [e] in
+            if sec_unfinished evs1 then group_aux t (Some (w0, evs1)) pend out
+            else group_aux t None [] (flush (Some (w0, evs1)) pend out)
+          else
+            let out1 := flush open pend out in
+            if sec_unfinished [e] then group_aux t (Some (w, [e])) [] out1
+            else group_aux t None [] (mk_sec w [e] :: out1)
+      | None =>
+          if sec_unfinished [e] then group_aux t (Some (w, [e])) [] out
+          else group_aux t None [] (mk_sec w [e] :: out)
+      end
+  | RO o :: t =>
+      match open with
+      | Some (w0, _) =>
+          if breaks w0 o then group_aux t None [] (o :: flush open pend out)
+          else group_aux t open (o :: pend) out
+      | None => group_aux t None [] (o :: out)
+      end
+  end.
+
+Definition group (l : list robs) : list obs := group_aux l None [] [].
+
+(* no action of the LTS emits an unfinished section: a section that [group] had to cut short is
+   rejected by [with_evs] whatever the state *)
+Lemma step_never_unfinished : forall col s a s1 evs,
+  step col s a = Some (s1, evs) -> sec_unfinished evs = false.
+Proof.
+  intros col s a s1 evs H. destruct a; cbn in H.
+  - destruct (get_pc s g); inversion H; reflexivity.
+  - destruct (get_pc s g); try discriminate.
+    destruct (closed s); [inversion H; reflexivity|].
+    destruct (cur s) eqn:C; [inversion H; reflexivity|].
+    unfold reconnect in H. rewrite C in H.
+    destruct f; cbn in H; inversion H; reflexivity.
+  - destruct (get_pc s g); try discriminate.
+    match type of H with (if ?b then _ else _) = _ => destruct b end; inversion H; reflexivity.
+  - destruct (get_pc s g); try discriminate.
+    destruct r; try (inversion H; reflexivity).
+    destruct (is_cur s c); [destruct col|]; inversion H; reflexivity.
+  - destruct (get_pc s g); inversion H; reflexivity.
+  - destruct (alive s c); inversion H; reflexivity.
+  - destruct (cur s); inversion H; reflexivity.
+Qed.
+
 (* the error classification facts (other than the stream-limit row, which is a theorem) *)
 Definition class_ok : bool :=
   Nat.eqb c16_nonpermanent_count 1 && c16_eof_is_closed && c16_remote_close_is_closed &&
@@ -204,7 +313,39 @@ Definition class_ok : bool :=
 Definition check (c : case) : bool :=
   match c with
   | CHist l => accepts l
+  | CRaw l => accepts (group l)
   | CClass => class_ok
   end.
 
 Definition mismatches (l : list case) : list nat := mism_from check 0 l.
+
+(* ---- recorded logs of one script (first use held inside configFunc, then rc.Close(), then the hold
+   is opened) on the working tree and on a tree whose reconnect() leaves rc.m around configFunc *)
+Example held_close_waits_accepted :
+  check (CRaw [RO (OInit true [] true); RO (OQuiet []); RO (OStart 0 TClosed); RE 0 (ECfg true);
+               RO OCloseBegin; RE 0 (ENew 0); RE 0 (EConnected 1); RE 99 (ESockClose 0); RO OCloseEnd;
+               RE 0 (ESockClose 0); RO (ORet 0 TClosed); RO (OQuiet []); RO (OStart 1 TClosed);
+               RO (ORet 1 TClosed); RO (OQuiet [])]) = true.
+Proof. vm_compute. reflexivity. Qed.
+
+Example close_inside_reconnect_rejected :
+  check (CRaw [RO (OInit true [] true); RO (OQuiet []); RO (OStart 0 TOk); RE 0 (ECfg true);
+               RO OCloseBegin; RO OCloseEnd; RE 0 (ENew 0); RE 0 (EConnected 1); RO (OReq 0);
+               RO (ORet 0 TOk); RO (OQuiet [0])]) = false.
+Proof. vm_compute. reflexivity. Qed.
+
+(* a second configFunc evaluation between cfg and new of the same Enter: the section of goroutine 0
+   is cut at the event of goroutine 1 *)
+Example second_cfg_inside_reconnect_cut :
+  group [RO (OStart 0 TOk); RE 0 (ECfg true); RO (OStart 1 THsErr); RE 1 (ECfg true); RE 1 (ENew 0);
+         RE 1 (ESockClose 0); RO (ORet 1 THsErr); RE 0 (ENew 1); RE 0 (EConnected 1)]
+  = [OStart 0 TOk; OSec 0 [ECfg true]; OStart 1 THsErr; OSec 1 [ECfg true; ENew 0; ESockClose 0];
+     ORet 1 THsErr; OSec 0 [ENew 1]; OSec 0 [EConnected 1]].
+Proof. vm_compute. reflexivity. Qed.
+
+Example second_cfg_inside_reconnect_rejected :
+  check (CRaw [RO (OInit true [] true); RO (OQuiet []); RO (OStart 0 TOk); RE 0 (ECfg true);
+               RO (OStart 1 THsErr); RE 1 (ECfg true); RE 1 (ENew 0); RE 1 (ESockClose 0);
+               RO (ORet 1 THsErr); RE 0 (ENew 1); RE 0 (EConnected 1); RO (OReq 0); RO (ORet 0 TOk);
+               RO (OQuiet [1])]) = false.
+Proof. vm_compute. reflexivity. Qed.
